@@ -240,11 +240,11 @@ impl<T: ?Sized, R: RawMutex> Mutex<T, R> {
 				|| self.raw_unlock_write(),
 			);
 
-			// ensures the key is held long enough
-			drop(key);
-
 			// safety: the mutex is still locked
 			self.raw_unlock_write();
+
+			// the key is only given back once nothing is held any more
+			drop(key);
 
 			r
 		}
@@ -267,11 +267,11 @@ impl<T: ?Sized, R: RawMutex> Mutex<T, R> {
 				|| self.raw_unlock_write(),
 			);
 
-			// ensures the key is held long enough
-			drop(key);
-
 			// safety: the mutex is still locked
 			self.raw_unlock_write();
+
+			// the key is only given back once nothing is held any more
+			drop(key);
 
 			Ok(r)
 		}
